@@ -97,47 +97,72 @@ def roundup(x):
     return F(math.ceil(x * 10), 10)
 
 
-def base3(e):
+@_memo
+def _base3(AV, AC, PR, UI, S, C, I, A):
     cia = _W3["CIA"]
-    iss = 1 - (1 - cia[e["C"]]) * (1 - cia[e["I"]]) * (1 - cia[e["A"]])
-    if e["S"] == "U":
+    iss = 1 - (1 - cia[C]) * (1 - cia[I]) * (1 - cia[A])
+    if S == "U":
         imp = F("6.42") * iss
     else:
         imp = F("7.52") * (iss - F("0.029")) - F("3.25") * (iss - F("0.02")) ** 15
-    pr = (_W3["PRU"] if e["S"] == "U" else _W3["PRC"])[e["PR"]]
-    ex = F("8.22") * _W3["AV"][e["AV"]] * _W3["AC"][e["AC"]] * pr * _W3["UI"][e["UI"]]
+    pr = (_W3["PRU"] if S == "U" else _W3["PRC"])[PR]
+    ex = F("8.22") * _W3["AV"][AV] * _W3["AC"][AC] * pr * _W3["UI"][UI]
     if imp <= 0:
         return F(0)
-    if e["S"] == "U":
+    if S == "U":
         return roundup(min(imp + ex, 10))
     return roundup(min(F("1.08") * (imp + ex), 10))
+
+
+def base3(e):
+    return _base3(e["AV"], e["AC"], e["PR"], e["UI"], e["S"], e["C"], e["I"], e["A"])
+
+
+@_memo
+def _tw3(E, RL, RC):
+    return _W3["E"][E] * _W3["RL"][RL] * _W3["RC"][RC]
+
+
+@_memo
+def _mimpact3(minor, MS, MC, MI, MA, CR, IR, AR):
+    cia, req = _W3["CIA"], _W3["REQ"]
+    miss = min(1 - (1 - cia[MC] * req[CR]) * (1 - cia[MI] * req[IR]) * (1 - cia[MA] * req[AR]), F("0.915"))
+    if MS == "U":
+        return F("6.42") * miss
+    if minor == 0:
+        return F("7.52") * (miss - F("0.029")) - F("3.25") * (miss - F("0.02")) ** 15
+    return F("7.52") * (miss - F("0.029")) - F("3.25") * (miss * F("0.9731") - F("0.02")) ** 13
+
+
+@_memo
+def _mexpl3(MAV, MAC, MPR, MUI, MS):
+    mpr = (_W3["PRU"] if MS == "U" else _W3["PRC"])[MPR]
+    return F("8.22") * _W3["AV"][MAV] * _W3["AC"][MAC] * mpr * _W3["UI"][MUI]
+
+
+@_memo
+def _mbase3(mi, me, MS):
+    if mi <= 0:
+        return None
+    if MS == "U":
+        return roundup(min(mi + me, 10))
+    return roundup(min(F("1.08") * (mi + me), 10))
+
+
+@_memo
+def _rumul(a, b):
+    return roundup(a * b)
 
 
 def score3(minor, e):
     """minor 0/1; e = ref.effective3(...) -> (base, temporal, environmental) Fractions"""
     b = base3(e)
-    tw = _W3["E"][e["E"]] * _W3["RL"][e["RL"]] * _W3["RC"][e["RC"]]
-    t = roundup(b * tw)
-    cia, req = _W3["CIA"], _W3["REQ"]
-    miss = min(1 - (1 - cia[e["MC"]] * req[e["CR"]]) * (1 - cia[e["MI"]] * req[e["IR"]])
-               * (1 - cia[e["MA"]] * req[e["AR"]]), F("0.915"))
-    ms = e["MS"]
-    if ms == "U":
-        mi = F("6.42") * miss
-    elif minor == 0:
-        mi = F("7.52") * (miss - F("0.029")) - F("3.25") * (miss - F("0.02")) ** 15
-    else:
-        mi = F("7.52") * (miss - F("0.029")) - F("3.25") * (miss * F("0.9731") - F("0.02")) ** 13
-    mpr = (_W3["PRU"] if ms == "U" else _W3["PRC"])[e["MPR"]]
-    me = F("8.22") * _W3["AV"][e["MAV"]] * _W3["AC"][e["MAC"]] * mpr * _W3["UI"][e["MUI"]]
-    if mi <= 0:
-        en = F(0)
-    else:
-        if ms == "U":
-            m = roundup(min(mi + me, 10))
-        else:
-            m = roundup(min(F("1.08") * (mi + me), 10))
-        en = roundup(m * tw)
+    tw = _tw3(e["E"], e["RL"], e["RC"])
+    t = _rumul(b, tw)
+    mi = _mimpact3(minor, e["MS"], e["MC"], e["MI"], e["MA"], e["CR"], e["IR"], e["AR"])
+    me = _mexpl3(e["MAV"], e["MAC"], e["MPR"], e["MUI"], e["MS"])
+    m = _mbase3(mi, me, e["MS"])
+    en = F(0) if m is None else _rumul(m, tw)
     return (b, t, en)
 
 
@@ -285,6 +310,77 @@ def detail4(e):
 
 def score4(e):
     return detail4(e)["score"]
+
+
+# ---- fast path for enumerators: table look-ups + memoised interpolation -------------------------
+def _mk_maps():
+    m1 = dict(((a, p, u), (eq1(a, p, u), None)) for a in LV4["AV"] for p in LV4["PR"] for u in LV4["UI"])
+    for k in list(m1):
+        q = m1[k][0]
+        m1[k] = (q, D1[q]["dist"][tuple(LV4[n].index(v) for n, v in zip(K1, k))])
+    m2 = {}
+    for k in itertools.product(LV4["AC"], LV4["AT"]):
+        q = eq2(*k)
+        m2[k] = (q, D2[q]["dist"][tuple(LV4[n].index(v) for n, v in zip(K2, k))])
+    m36 = {}
+    for k in itertools.product(*[LV4[n] for n in K36]):
+        q = eq36(*k)
+        m36[k] = (q, D36[q]["dist"][tuple(LV4[n].index(v) for n, v in zip(K36, k))])
+    m4 = {}
+    for k in itertools.product(*[LV4[n] for n in K4]):
+        q = eq4(*k)
+        m4[k] = (q, D4[q]["dist"][tuple(LV4[n].index(v) for n, v in zip(K4, k))])
+    return m1, m2, m36, m4
+
+
+M1, M2, M36, M4 = _mk_maps()
+
+
+@_memo
+def _interp4(q, d1, d2, d36, d4):
+    LOOK = look()
+    q1, q2, q3, q4, q5, q6 = q
+    val = LOOK[_key(q)]
+
+    def nl(*d):
+        return LOOK.get(_key(tuple(a + b for a, b in zip(q, d))))
+    n1, n2, n4, n5 = nl(1, 0, 0, 0, 0, 0), nl(0, 1, 0, 0, 0, 0), nl(0, 0, 0, 1, 0, 0), nl(0, 0, 0, 0, 1, 0)
+    if (q3, q6) in ((1, 1), (0, 1)):
+        n36 = nl(0, 0, 1, 0, 0, 0)
+    elif (q3, q6) == (1, 0):
+        n36 = nl(0, 0, 0, 0, 0, 1)
+    elif (q3, q6) == (0, 0):
+        c = [x for x in (nl(0, 0, 0, 0, 0, 1), nl(0, 0, 1, 0, 0, 0)) if x is not None]
+        n36 = max(c) if c else None
+    else:
+        n36 = nl(0, 0, 1, 0, 0, 1)
+    parts = []
+    if n1 is not None:
+        parts.append((val - n1) * F(d1, D1[q1]["depth"]))
+    if n2 is not None:
+        parts.append((val - n2) * F(d2, D2[q2]["depth"]))
+    if n36 is not None:
+        parts.append((val - n36) * F(d36, D36[(q3, q6)]["depth"]))
+    if n4 is not None:
+        parts.append((val - n4) * F(d4, D4[q4]["depth"]))
+    if n5 is not None:
+        parts.append(F(0))
+    mean = sum(parts) / len(parts) if parts else F(0)
+    exact = max(F(0), min(F(10), val - mean))
+    return float(F(math.floor(exact * 10 + F(1, 2)), 10)), len(parts), exact
+
+
+def fast4(e):
+    """-> (score as float, macro key or None, n existing lower macrovectors, sum of distances)"""
+    if e["VC"] == "N" and e["VI"] == "N" and e["VA"] == "N" and e["SC"] == "N" and e["SI"] == "N" and e["SA"] == "N":
+        return 0.0, None, 0, 0
+    q1, d1 = M1[(e["AV"], e["PR"], e["UI"])]
+    q2, d2 = M2[(e["AC"], e["AT"])]
+    (q3, q6), d36 = M36[(e["VC"], e["VI"], e["VA"], e["CR"], e["IR"], e["AR"])]
+    q4, d4 = M4[(e["SC"], e["SI"], e["SA"])]
+    q = (q1, q2, q3, q4, EQ5[e["E"]], q6)
+    sc, nlow, _ = _interp4(q, d1, d2, d36, d4)
+    return sc, q, nlow, d1 + d2 + d36 + d4
 
 
 # ==================================================================================================
